@@ -294,9 +294,14 @@ def applyNTomb (d : Defects) (r : Replica) (t : NTomb) : Replica :=
 def applyNTombs (d : Defects) (rights : Rights) (dst : Replica) (ts : List NTomb) : Replica :=
   (validNTombs rights dst (if d.deletionBatchKeyedById then dedupById ts else ts)).foldl (applyNTomb d) dst
 
-/-- `Node::filter_existing`: `none` = not requested, `some old` = requested with the local row `old` -/
+/-- `Node::filter_existing`: `none` = not requested, `some old` = requested with the local row `old`.
+    With #18 repaired (`ingestIgnoresTombstones := false`) an announced id that carries a deletion record is not
+    requested; the deletion log is consulted the way a synchronised deletion deletes (`syncDeletionRoomScoped`):
+    `WHERE room_id = ? AND id IN (..)` — the records of the synchronised room, which is the room of the announced
+    row — or, in the intended behaviour, the records of that id in any room. -/
 def wanted (d : Defects) (dst : Replica) (n : Node) : Option (Option Node) :=
-  if !d.ingestIgnoresTombstones && dst.ntombs.any (fun t => t.id = n.id) then none
+  if !d.ingestIgnoresTombstones &&
+      dst.ntombs.any (fun t => t.id = n.id && (!d.syncDeletionRoomScoped || t.room = n.room)) then none
   else
     match dst.findId n.id with
     | none => some none
